@@ -414,5 +414,46 @@ class Filter(Unit):
                     bound='every ordered selection of up to 3 of 4 classes x every packet class')
 
 
+class Decorator(Unit):
+    """@connection.listener(T1, T2, **flags) is register_packet_listener(f, T1, T2, **flags) and hands the function back."""
+    prop = 'C13'
+    name = 'C13.decorator'
+    int_mode = 'int'
+    functions = (C_ + 'listener', C_ + 'register_packet_listener')
+
+    def run(self, I):
+        E = I.E
+        names = ('packet_listeners', 'early_packet_listeners', 'outgoing_packet_listeners', 'early_outgoing_packet_listeners')
+        e, o = E.fork(3, 'early'), E.fork(3, 'outgoing')
+        kw = {}
+        if e:
+            kw['early'] = (e == 2)
+        if o:
+            kw['outgoing'] = (o == 2)
+        ntypes = E.fork(3, 'types')
+        types_ = (PA, PC)[:ntypes]
+        cb = lambda p: None
+        a, b = object.__new__(Connection), object.__new__(Connection)
+        for c in (a, b):
+            for n in names:
+                c.__dict__[n] = ['x']
+        dec = I.call(I.getattr_(a, 'listener'), *types_, **kw)
+        E.check('decorator.lazy', all(a.__dict__[n] == ['x'] for n in names), note='nothing is registered before the decorator is applied')
+        r = I.call(dec, cb)
+        I.call(I.getattr_(b, 'register_packet_listener'), cb, *types_, **kw)
+        E.check('decorator.returns-function', r is cb)
+        for n in names:
+            la, lb = a.__dict__[n], b.__dict__[n]
+            same = len(la) == len(lb) and all(x is y or (isinstance(x, PacketListener) and isinstance(y, PacketListener) and
+                                                        x.callback is y.callback and x.packets_to_listen == y.packets_to_listen)
+                                              for x, y in zip(la, lb))
+            E.check('decorator.same-as-register[%s]' % n, same,
+                    note='the decorator leaves the four listener lists exactly as the direct registration does')
+        return None
+
+    def replay(self, model, label):
+        return dict(confirmed=False, call='Connection.listener decorator', observed='')
+
+
 def units(tier):
-    return [Register(), Filter(), Dispatch('_react'), Dispatch('_write_packet')]
+    return [Register(), Filter(), Dispatch('_react'), Dispatch('_write_packet'), Decorator()]
